@@ -66,11 +66,26 @@ def run(ctx):
             if il != exp:
                 viol.append({"kind": "history", "mode": mode, "op": c["op"], "problem": c["problem"], "cfg": c["cfg"], "limit": c.get("limit"),
                              "detail": f"result depends on what ran earlier in the process: {il[:200]} vs {exp[:200]} when run in generation order"})
+    # "constructing a solver does not change the meaning of the problem object": split a problem object that an earlier solver used
+    # (partial enumeration, abandoned) and solve the parts; compare with the parts of a fresh object
+    sp = []
+    for c in base:
+        if c["op"] == "solve" and len(sp) < (40 if ctx["tier"] == "quick" else 800):
+            nvars = len(c["problem"]["dom_indices"])
+            sp.append(dict(c, op="split_solve", k=rng.randint(2, 3), v=rng.randrange(nvars), limit=None))
+    fresh = ce.run_impl([dict(c, prior=False) for c in sp], jit=False, tag="C15s")
+    used = ce.run_impl([dict(c, prior=True) for c in sp], jit=False, tag="C15t")
+    for c, a, b in zip(sp, fresh, used):
+        report.cov["evaluations"] += 2
+        report.count("history_op", "split_after_solver")
+        if a[0] in ("ok", "err") and b[0] in ("ok", "err") and list(a[1:]) != list(b[1:]):
+            viol.append({"kind": "history", "op": "split_solve", "problem": c["problem"], "cfg": c["cfg"], "k": c["k"], "v": c["v"],
+                         "detail": f"Problem.split gives different sub-problems when a solver was built on the object before: {str(b[1])[:150]} vs {str(a[1])[:150]} on a fresh object"})
     report.cov["traces_validated_against_impl"] = 2 * len(base)
     report.cov["rule"] = ("generated solve / partial-enumeration / optimisation cases run (a) interpreted (NUMBA_DISABLE_JIT=1), (b) compiled, "
                           "(c) in both modes again inside one long-lived process in shuffled order, each case possibly twice, interleaved with "
-                          "registrations of propagators/heuristics/consistency algorithms, abandoned generators and a second solver built on a "
-                          "reused problem object; every run must produce the model's single answer (solution sequence and 13 statistics)")
+                          "registrations of propagators/heuristics/consistency algorithms, abandoned generators, a second solver built on a "
+                          "reused problem object, and Problem.split applied to an object an earlier solver used; every run must produce the model's single answer (solution sequence and 13 statistics)")
     return {"corr_diffs": corr, "violations": viol, "component": "solveAll/optimize (functions of their input) vs BacktrackSolver in both execution modes",
             "partial": ["that compiled and interpreted execution agree, and that no hidden process state exists, cannot be exhibited by the model: tested, not proved",
                         "interpreted mode computes linear sums in int32 beyond NoOverflow (known finding K2, outside the input contract)"]}
